@@ -127,6 +127,10 @@ case("index-build-dropped", "C12,C14", B, 'registry.build_index("bank", "country
 # ---- C14 / C15 -----------------------------------------------------------------------------------------------
 case("numerify-cache", "C14,C15", CK, "def numerify(value: str) -> int:\n    try:",
      "_cache: dict = {}\n\n\ndef numerify(value: str) -> int:\n    if value in _cache:\n        return _cache[value]\n    _cache[value] = 0\n    try:", V, "_cache")
+case("numerify-lru-cache-benign", "C14,C15,C01", CK, "def numerify(value: str) -> int:", "@functools.lru_cache(maxsize=4096)\ndef numerify(value: str) -> int:", S,
+     more=[{"file": CK, "old": "import abc\n", "new": "import abc\nimport functools\n"}])
+case("ctor-helper-store-benign", "C15,C14", I, "        self.bban = BBAN(self.country_code, self._get_slice(start=4))", "        self._set_bban()", S,
+     more=[{"file": I, "old": "    def validate(self, validate_bban: bool = False) -> bool:", "new": "    def _set_bban(self) -> None:\n        self.bban = BBAN(self.country_code, self._get_slice(start=4))\n\n    def validate(self, validate_bban: bool = False) -> bool:"}])
 case("bank-sorts-shared", "C14,C15", B, "        bank_entry = bank_registry.get((self.country_code, key))",
      '        bank_entry = bank_registry.get((self.country_code, key))\n        if bank_entry:\n            bank_entry.sort(key=lambda e: e["primary"], reverse=True)', V)
 case("spec-setdefault", "C14,C15", I, "            return spec[self.country_code]\n        except KeyError as e:",
